@@ -9,7 +9,7 @@ is tied to the code by the correspondence check of harness/c04.go.
 The round trip of whole Go values (structs, maps, options …) is NOT proved here: the L3 value model is
 another slice; that statement is validated by the harness only (see meta/C04.json).
 -/
-import JsonV.Lemmas.TimeInt
+import JsonV.Lemmas.TimeUnixRt
 
 namespace JsonV.Props.C04
 open JsonV JsonV.Model.Time
@@ -82,11 +82,22 @@ example : (1000 : Nat) ∈ bases := by decide
 def durISO_full : Prop :=
   ∀ (ff : FloatFrac) (d : Int64), parseDurationISO8601 ff (appendDurationISO8601 [] d.toInt) = (d.toInt, none, false)
 
-/-- Full statement not yet proved: Unix timestamps round-trip for every int64 second count, every nanosecond
-count in `[0, 10^9)` and each base; what is preserved is the pair `(sec, nsec)` exactly (all four formats
-keep nanosecond precision: the digits below the unit are written as a decimal fraction). -/
-def timeUnix_full : Prop :=
-  ∀ (sec : Int64) (nsec : Int) (p : Nat), 0 ≤ nsec → nsec < 1000000000 → p ∈ bases →
-    parseTimeUnix (appendTimeUnix [] sec.toInt nsec p) p = .ok (sec.toInt, nsec)
+/-- `timeUnix_rt`: for EVERY int64 second count, every nanosecond count in `[0, 10^9)` and each base
+(formats unix, unixmilli, unixmicro, unixnano) `parseTimeUnix (appendTimeUnix (sec, nsec) p) p = (sec, nsec)`:
+the pair is preserved EXACTLY — all four formats keep nanosecond precision because the digits below the unit
+are written as a decimal fraction; nothing is truncated.  Covers the three regimes of the writer (`pow10 = 1`,
+`|sec| < 10^9`, otherwise), the parser's re-read when the whole field overflows a uint64, and MinInt64.
+(`time.Time` enters through `t.Unix()`, `t.Nanosecond()` and `time.Unix(sec, nsec)`, see Model/Time.lean.) -/
+theorem timeUnix_rt (sec : Int64) (nsec : Int) (p : Nat) (h0 : 0 ≤ nsec) (h1 : nsec < 1000000000) (hp : p ∈ bases) :
+    parseTimeUnix (appendTimeUnix [] sec.toInt nsec p) p = .ok (sec.toInt, nsec) := by
+  have hr := int64_range sec
+  simp only [bases, List.mem_cons, List.not_mem_nil, or_false] at hp
+  rcases hp with rfl | rfl | rfl | rfl
+  · exact timeUnix_roundtrip_pow 0 9 rfl (Or.inl rfl) _ _ hr.1 hr.2 h0 h1
+  · exact timeUnix_roundtrip_pow 3 6 rfl (Or.inr (by decide)) _ _ hr.1 hr.2 h0 h1
+  · exact timeUnix_roundtrip_pow 6 3 rfl (Or.inr (by decide)) _ _ hr.1 hr.2 h0 h1
+  · exact timeUnix_roundtrip_pow 9 0 rfl (Or.inr (by decide)) _ _ hr.1 hr.2 h0 h1
+
+example : (0 : Int) ≤ 999999999 ∧ (999999999 : Int) < 1000000000 ∧ (1000000 : Nat) ∈ bases := by decide
 
 end JsonV.Props.C04
